@@ -143,6 +143,7 @@ type fnCtx struct {
 	paramOrder  []string
 	imprecise   []string
 	externsUsed map[string]bool
+	tablesUsed  map[string]bool
 	inlinedFns  map[string]bool
 	calleeUsed  map[string]bool
 	loopInfo    []*loopInfo
